@@ -302,7 +302,7 @@ def check_precision(prog, rep, m):
         f = m.funcs.get(fname)
         if f is None:
             continue
-        bcalls = [c for c in calls(f.node) if c in f.own_nodes() and short(c) == '_bin' and len(c.args) >= 2]
+        bcalls = [c for c in calls(f.node) if c in f.own_nodes() and short(c) == '_bin' and _arg_of(prog, f, m, c, 1) is not None]
         # the local that holds the maximum of the finite cells (whatever it is called): the one assigned from max / nanmax of
         # the finite part of a local array
         mxname, okm = 'max_data', False
@@ -317,7 +317,7 @@ def check_precision(prog, rep, m):
         pm = parent_map(f.node)
         for c in bcalls:
             n += 1
-            ok, why = last_is_max(f, pm, c, c.args[1], mxname)
+            ok, why = last_is_max(f, pm, c, _arg_of(prog, f, m, c, 1), mxname)
             rep.add('K3', f, label, '%s: last break == max_data when binned' % norm(c)[:80], c.lineno, ok and okm,
                     'the last break of the vector handed to the binning kernel must be the exact maximum of the finite cells '
                     '(accumulated rounding of min + i*width, or a sample that misses the maximum, leaves the maximum cell '
@@ -346,6 +346,18 @@ def check_precision(prog, rep, m):
     if not njenks:
         rep.add('K3', m, 'natural_breaks', 'Jenks fit', 1, None, 'no call of _run_jenks found in the module')
     return n
+
+
+def _arg_of(prog, f, m, call, index):
+    """the argument expression a call hands to the callee's parameter number `index`, positional or keyword"""
+    t = prog.resolve_callable(f, m, call.func)
+    if len(call.args) > index:
+        return call.args[index]
+    if isinstance(t, Func) and index < len(t.params):
+        for k_ in call.keywords:
+            if k_.arg == t.params[index]:
+                return k_.value
+    return None
 
 
 def last_is_max(f, pm, call, barg, mxname='max_data'):
@@ -581,8 +593,8 @@ def check_bins_not_narrowed(prog, rep, m):
             if not isinstance(c, ast.Call):
                 continue
             t = prog.resolve_callable(f, m, c.func)
-            if isinstance(t, Func) and t.name == '_cpu_bin' and len(c.args) >= 2 and isinstance(c.args[1], ast.Name):
-                bname = c.args[1].id
+            if isinstance(t, Func) and t.name == '_cpu_bin' and isinstance(_arg_of(prog, f, m, c, 1), ast.Name):
+                bname = _arg_of(prog, f, m, c, 1).id
                 defs = [v for v in f.local_assigns().get(bname, []) if isinstance(v, ast.AST)]
                 for v in defs:
                     dt = None
